@@ -181,7 +181,9 @@ var fixtures = map[string]string{"jar": "hello.jar", "pe-coff": "ClassLibrary1.d
 func (w *world) randomReq(rnd *rand.Rand, n int) reqSpec {
 	k := w.keys[rnd.Intn(len(w.keys))]
 	types := []string{"jar", "pe-coff", "ps"}
-	if k.hasPgp {
+	if rawMode {
+		types = []string{"pe-coff"}
+	} else if k.hasPgp {
 		types = append(types, "pgp")
 	}
 	st := types[rnd.Intn(len(types))]
@@ -198,6 +200,9 @@ func leafOf(pemText string) *x509.Certificate {
 	}
 	return c
 }
+
+var clientMu sync.Mutex
+var rawMode bool
 
 type outcome struct {
 	status   int
@@ -233,21 +238,35 @@ func (w *world) doRequest(base string, hc *http.Client, rs reqSpec, verify bool)
 	if rs.sigtype == "pgp" {
 		q.Set("armor", "true")
 	}
-	flags, err := mod.FlagsFromQuery(q)
-	if err != nil {
-		panic(err)
-	}
-	opts := signers.SignOpts{Path: work, Hash: hash, Flags: flags}
-	tr, err := mod.GetTransform(f, opts)
-	if err != nil {
-		return outcome{err: err}
+	// the real client is its own process: serialise the harness's client-side use of relic's flag
+	// machinery so that any race reported is between SERVER goroutines
+	var flags *signers.FlagValues
+	var tr signers.Transformer
+	if rawMode {
+		// pe-coff needs no client-side transform: the client never touches relic's flag sets, exactly like a
+		// server process that only ever sees requests
+		tr = signers.DefaultTransform(f)
+	} else {
+		clientMu.Lock()
+		flags, err = mod.FlagsFromQuery(q)
+		clientMu.Unlock()
+		if err != nil {
+			panic(err)
+		}
+		opts := signers.SignOpts{Path: work, Hash: hash, Flags: flags}
+		tr, err = mod.GetTransform(f, opts)
+		if err != nil {
+			return outcome{err: err}
+		}
 	}
 	stream, err := tr.GetReader()
 	if err != nil {
 		return outcome{err: err}
 	}
-	if err := flags.ToQuery(q); err != nil { // the transform may have set signer flags (e.g. ps-style)
-		return outcome{err: err}
+	if flags != nil {
+		if err := flags.ToQuery(q); err != nil { // the transform may have set signer flags (e.g. ps-style)
+			return outcome{err: err}
+		}
 	}
 	req, _ := http.NewRequest("POST", base+"/sign?"+q.Encode(), struct{ io.Reader }{stream}) // hide Close: net/http would close the input file
 	req.Header.Set("X-Forwarded-For", "198.51.100.7")
@@ -365,7 +384,9 @@ func Main(args []string) {
 	tokenDelay := fs.Duration("tokendelay", 0, "delay each token signature by this much")
 	workdir := fs.String("dir", "", "working directory (default: fresh temp dir)")
 	mixOther := fs.Bool("mix", false, "mix in list_keys/keys/health requests")
+	raw := fs.Bool("raw", false, "only pe-coff with the default transform: no client-side use of relic's flag machinery")
 	fs.Parse(args)
+	rawMode = *raw
 	zerolog.SetGlobalLevel(zerolog.Disabled)
 	r := res.New()
 	seedv := int64(1)
@@ -394,6 +415,15 @@ func Main(args []string) {
 	rec := &recorder{}
 	verifhook.SetSink(rec.sink)
 	faketoken.Reset()
+	// key ids rotate over time so that cache refills are visible as id changes
+	t0 := time.Now()
+	for _, t := range []string{"t1", "t2"} {
+		faketoken.For(t).Set(func(s *faketoken.Script) {
+			s.KeyIDFn = func(name string) []byte {
+				return []byte(fmt.Sprintf("%s#%d", name, 1+int(time.Since(t0)/(700*time.Millisecond))))
+			}
+		})
+	}
 	if *tokenDelay > 0 {
 		for _, t := range []string{"t1", "t2"} {
 			faketoken.For(t).Set(func(s *faketoken.Script) {
@@ -504,6 +534,8 @@ func Main(args []string) {
 		switch e["ev"] {
 		case "Request", "SignDone", "AuditAmqp", "AuditFile", "ResponseWrite", "Response":
 			trace = append(trace, e)
+		case "ShutdownBegin", "ShutdownDrained", "ShutdownEnd":
+			trace = append(trace, e)
 		}
 	}
 	if *auditKind == "ok" {
@@ -512,7 +544,8 @@ func Main(args []string) {
 	trace = append(trace, event{"ev": "End", "amqpObserved": false})
 	// end-state checks that do not depend on hooks
 	if *auditKind == "ok" && *amqp == "" {
-		if int64(len(recs)) != okCount {
+		if int64(len(recs)) != okCount && !(*shutdown && int64(len(recs)) > okCount) {
+			// (across a shutdown a signature may be audited and then not delivered: more records than responses is allowed)
 			r.Fail(map[string]string{"engine": "signsrv", "kind": "audit-count"}, nil, "%d audit lines for %d successful responses", len(recs), okCount)
 		}
 		for _, rc := range recs {
@@ -527,28 +560,38 @@ func Main(args []string) {
 		}
 	}
 	if *shutdown {
-		// every request the server accepted (SignDone seen) must have been answered in full
-		signed := map[string]bool{}
+		// every request whose handler was already running when Shutdown began (SignRecv before
+		// ShutdownBegin) must be answered in full. Requests arriving later on a kept-alive connection may
+		// be processed or dropped by net/http; they are not "in flight" at shutdown.
+		recv := map[string]int64{}
 		answered := map[string]int{}
-		var closeSeq, lastRespWrite int64
+		var beginSeq, drainedSeq, lastRespWrite int64
 		for _, e := range evs {
 			switch e["ev"] {
-			case "SignDone":
-				signed[fmt.Sprint(e["rid"])] = true
+			case "SignRecv":
+				recv[fmt.Sprint(e["rid"])] = e["seq"].(int64)
 			case "Response":
 				answered[fmt.Sprint(e["rid"])] = e["status"].(int)
 			case "ResponseWrite":
 				lastRespWrite = e["seq"].(int64)
+			case "ShutdownBegin":
+				beginSeq = e["seq"].(int64)
 			case "ShutdownDrained":
-				closeSeq = e["seq"].(int64)
+				drainedSeq = e["seq"].(int64)
 			}
 		}
-		for rid := range signed {
-			if answered[rid] != 200 {
-				r.Fail(map[string]string{"engine": "signsrv", "kind": "shutdown-lost"}, rid, "request %s was signed by the server but the client got status %d (shutdown did not let it finish)", rid, answered[rid])
+		inflight := 0
+		for rid, sq := range recv {
+			if beginSeq != 0 && sq < beginSeq {
+				if answered[rid] != 200 {
+					r.Fail(map[string]string{"engine": "signsrv", "kind": "shutdown-lost"}, rid, "request %s was being handled when shutdown began but the client got status %d (shutdown did not let it finish)", rid, answered[rid])
+				} else {
+					inflight++
+				}
 			}
 		}
-		if closeSeq != 0 && lastRespWrite > closeSeq {
+		r.Extra["completed_across_shutdown"] = inflight
+		if drainedSeq != 0 && lastRespWrite > drainedSeq {
 			r.Fail(map[string]string{"engine": "signsrv", "kind": "shutdown-order"}, nil, "a response was written after Shutdown had reported all requests drained")
 		}
 		r.Extra["refused_after_shutdown"] = refused
